@@ -931,7 +931,7 @@ func TestVerifC12(t *testing.T) {
 				}
 			}
 		}
-		return cfgs, fmt.Sprintf("%d generated transport-parameter lists (baseline + one limit at a time over {absent, 0, small, Config default -1/0/+1, large}) x the boundary scenario of that limit x user Configs; 7 built-in fingerprints x %d boundary scenarios (slow reader per stream type and per connection, maximum concurrent streams, connection ID issuance, DATAGRAM at the advertised size, silence just below the advertised idle timeout counted from the last packet the client received, and - idle-send - from the first ack-eliciting packet it sent since: the path towards the client goes dark, the application does one of {nothing, write, write 2 packets, close, reset, stop-sending, open a bidirectional / unidirectional stream, send a DATAGRAM} a quarter / half / all but 600 ms into its idle period, the peer answers 500 ms before the advertised period counted from the restart the wire shows is over; both idle scenarios against a peer that advertises a longer max_idle_timeout of its own (10 min) and against one that advertises none (0)) x user Configs {zero, small/large windows, datagrams on, idle 1s/5s/5min, few / refused (-1) / 2^20 streams, keep-alive, no MTU discovery}%s", len(gens), len(c12Scenarios), map[bool]string{true: "", false: " (window scenarios of the built-in fingerprints with the zero Config only; idle-send of the built-in fingerprints with the Configs zero, idle 5s, keep-alive, idle 1s without MTU discovery; idle-send against the peer without an idle timeout with the application acting late in the period only)"}[e.Thorough()])
+		return cfgs, fmt.Sprintf("%d generated transport-parameter lists (baseline + one limit at a time over {absent, 0, 1, small, Config default -1/0/+1, large}) x the boundary scenarios of that limit (conformant peer at the boundary; over-*: a peer that goes one beyond it, every user Config) x user Configs; 7 built-in fingerprints x %d boundary scenarios (slow reader per stream type and per connection, maximum concurrent streams, connection ID issuance, DATAGRAM at the advertised size, silence just below the advertised idle timeout counted from the last packet the client received, and - idle-send - from the first ack-eliciting packet it sent since: the path towards the client goes dark, the application does one of {nothing, write, write 2 packets, close, reset, stop-sending, open a bidirectional / unidirectional stream, send a DATAGRAM} a quarter / half / all but 600 ms into its idle period, the peer answers 500 ms before the advertised period counted from the restart the wire shows is over; both idle scenarios against a peer that advertises a longer max_idle_timeout of its own (10 min) and against one that advertises none (0); over-streams-bidi/-uni, over-sd-bidi-local/-bidi-remote/-uni, over-max-data, over-datagram: the harness speaks for the server with authentic 1-RTT packets, first frames that use the advertised limit exactly - not to be refused -, then one stream / one byte / one DATAGRAM byte more - to be refused with a locally generated transport error) x user Configs {zero, small/large windows, datagrams on, idle 1s/5s/5min, few / refused (-1) / 2^20 streams, keep-alive, no MTU discovery}%s", len(gens), len(c12Scenarios), map[bool]string{true: "", false: " (window scenarios of the built-in fingerprints with the zero Config only; idle-send of the built-in fingerprints with the Configs zero, idle 5s, keep-alive, idle 1s without MTU discovery; idle-send against the peer without an idle timeout with the application acting late in the period only)"}[e.Thorough()])
 	}
 	part := explore.Part{Name: "limits"}
 	part.Run = func(e explore.Env) *explore.Report {
